@@ -1,25 +1,32 @@
 import RreModel.C09.Candidates
 import RreModel.C09.Spec
+import RreModel.C09.Hist
 import RreModel.C11.Model
 /-
 C11 — `BackwardEngine` as a state machine over a whole history, with the CONCRETE search of C09 inside.
 
 What lives on between two calls on one `BackwardEngine` (`src/backward/backward_engine.rs`):
 
-* `knowledge_base : Arc<KnowledgeBase>` and `conclusion_index` (built once by `ConclusionIndex::from_rules(&kb.get_rules())`
-  in `new` / `with_config`) — constant over the histories of this property (the rule set is not changed), so the
-  candidate lists are a function of the goal: `World.top`, `World.sub` (`World.code` = the code's computation,
-  `C09.topCandidates` / `C09.subCandidates`, C16's index model inside);
+* `knowledge_base : Arc<KnowledgeBase>` — edited through `engine.knowledge_base()` (`add_rule` / `remove_rule` /
+  `set_rule_enabled` / `clear`; every edit that changes something increments `version`) — and `conclusion_index`, built by
+  `ConclusionIndex::from_rules(&kb.get_rules())` in `new` / `with_config` / `rebuild_index` and by nothing else: the state
+  `C09.Eng` of `RreModel/C09/Hist.lean` (`Eng.rules`; steps `.kb op` / `.rebuild` = `C09.engStep`).  The search of a call runs
+  on the rule state AS IT IS at that call: enabled live rules, top-level candidates from the (possibly stale) index
+  (`C09.topCandsHist`), sub-goal candidates from the live rules (`C09.subCandsHist`);
 * `config` — replaced by `set_config`; `query_aggregate` changes `max_solutions` and `enable_memoization` for the
   duration of its inner `query` and puts both back (fixes e8cfd71 / 7aeb869), also when the inner query fails;
 * `goal_manager.proven_cache : HashMap<String, bool>` — read and written by `query_with_rete_engine` when
-  `enable_memoization`; `set_config` installs `GoalManager::new(..)`, i.e. an empty cache;
+  `enable_memoization`; `set_config` installs `GoalManager::new(..)`, i.e. an empty cache; `rebuild_index` empties it
+  (`goal_manager.clear()`, fix 092f94f);
 * nothing else: the search objects (`DepthFirstSearch` …, their `solutions`, `goals_explored`, and — with a RETE engine
   attached — their proof graph, `proof_graph::new_shared()` in `new_with_engine`) are created inside every call of
   `query_with_rete_engine` and dropped at its end; `QueryStats` are returned, not kept.
 
-The memo key (`memo_key`, fix a4f1d19) is `query text ++ "\0" ++ max_solutions ++ "\0" ++ Debug of the facts sorted by
-name`: here `key : Q → Nat → Facts → K`.  Strategy and `max_depth` are NOT in the key.
+The memo key (`memo_key`, fixes a4f1d19, 092f94f) is `query text ++ "\0" ++ max_solutions ++ "\0" ++ kb.version() ++ "\0" ++
+Debug of the facts sorted by name`: here `key : Nat → Q → Nat → Facts → K` (first argument: the knowledge-base version).
+Strategy and `max_depth` are NOT in the key, nor is anything about the index.
+
+A query is an atom or its negation `NOT <atom>` (`GQ`; the search of a negated goal is `C09.queryNeg`, `RreModel/C09/Ext.lean`).
 
 The order in which the top-level candidates are tried comes out of a `HashSet` and may differ from call to call:
 every `query` step carries the enumeration `ord` its call happens to use (`ord cands` = the list in the order tried).
@@ -48,37 +55,56 @@ def storeOf (l : Facts) : C09.Store := ⟨C09.dataOf l, []⟩
 def factsOfData (nf : Nat) (d : C09.Data) : Facts :=
   (List.range nf).filterMap fun k => (d k).map fun v => (k, v)
 
-/-- what a search is for the engine: configuration, the `max_solutions` in force, the query, the enumeration of the
-top-level candidates, the caller's facts ↦ `(provable, facts afterwards, #solutions)` -/
-abbrev Search (Q : Type) := Config → Nat → Q → Ord → Facts → QueryOut
+/-- what a search is for the engine: the rule state (knowledge base + the rule list the index was last built from),
+configuration, the `max_solutions` in force, the query, the enumeration of the top-level candidates, the caller's facts ↦
+`(provable, facts afterwards, #solutions)` -/
+abbrev Search (Q : Type) := C09.Eng → Config → Nat → Q → Ord → Facts → QueryOut
 
-/-- the constant part of an engine: rules, candidate lists, field universe of the caller's facts -/
-structure World where
-  kb : List Rule
-  top : Atom → List Nat
-  sub : Atom → List Nat
-  nf : Nat
+/-- a query text the C09 grammar has: `<atom>` or `NOT <atom>` -/
+structure GQ where
+  atom : Atom
+  neg : Bool
+deriving DecidableEq
 
-/-- the candidate lists the code computes (`find_candidate_rules` on the index built at construction;
-`rule_could_prove_pattern` over `kb.get_rules()`) -/
-def World.code (nm : Naming) (kb : List Rule) (nf : Nat) : World :=
-  ⟨kb, C09.topCandidates nm kb, C09.subCandidates nm kb, nf⟩
+/-- the pattern text `find_candidate_rules` looks up: the whole query (`"NOT A == true"` for a negated goal) -/
+def patOf (nm : Naming) (q : GQ) : String := if q.neg then "NOT " ++ C09.patternOf nm q.atom else C09.patternOf nm q.atom
 
-/-- **the search of the code**: the `match self.config.strategy` of `query_with_rete_engine` = `C09.query` -/
-def codeSearch (W : World) : Search Atom := fun c ms g ord f =>
-  C09.query W.kb c.strategy c.maxDepth ms W.sub g (ord (W.top g)) (storeOf f)
+/-- the top-level candidates of a call on rule state `r` — positions among the enabled live rules — and whether they come out of
+the index (a `HashSet`: any order) or out of the linear fallback (`kb.get_rules()` order) -/
+def topOf (nm : Naming) (r : C09.Eng) (q : GQ) : List Nat × Bool :=
+  let t := C09.topCandsHist nm r (patOf nm q)
+  (t.1.map (C09.remap r.krules), t.2)
 
-/-- the same with the driver's rollback device (`C09.query_eq_fast`: equal) -/
-def fastSearch (W : World) : Search Atom := fun c ms g ord f =>
-  C09.queryFast W.kb c.strategy c.maxDepth ms W.sub g (ord (W.top g)) (storeOf f)
+/-- the search on rule state `r` with the rollback device `rb` -/
+def searchG (rb : C09.Rb) (nm : Naming) : Search GQ := fun r c ms q ord f =>
+  if q.neg then
+    C09.queryNegG rb (C09.enabledRules r.krules) c.strategy c.maxDepth ms (C09.subCandsHist nm r) q.atom
+      (ord (topOf nm r q).1) (storeOf f)
+  else
+    C09.queryG rb (C09.enabledRules r.krules) c.strategy c.maxDepth ms (C09.subCandsHist nm r) q.atom
+      (ord (topOf nm r q).1) (storeOf f)
+
+/-- **the search of the code**: the `match self.config.strategy` of `query_with_rete_engine` = `C09.query` / `C09.queryNeg` on
+the enabled live rules, with the candidates `find_candidate_rules` gets from the index as it was last built
+(`C09.topCandsHist`) and `rule_could_prove_pattern` from the live rules (`C09.subCandsHist`) -/
+def codeSearch (nm : Naming) : Search GQ := searchG C09.rbCode nm
+
+/-- the same with the driver's rollback device (`C09.query_eq_fast`, `C09.queryNeg_eq_fast`: equal) -/
+def fastSearch (nm : Naming) : Search GQ := searchG C09.rbSaved nm
 
 /-- `BackwardEngine`: what changes over its life -/
 structure Eng (K : Type) where
+  /-- knowledge base (rules in `get_rules()` order, `version`) and the rule list the conclusion index was last built from -/
+  rules : C09.Eng
   cfg : Config
   cache : List (K × Bool)
 
-/-- `BackwardEngine::with_config` / what `set_config` leaves: the configuration and an empty `GoalManager` -/
-def Eng.new {K : Type} (c : Config) : Eng K := ⟨c, []⟩
+/-- `BackwardEngine::with_config` / what `set_config` and `rebuild_index` leave of the memo state: an empty `GoalManager` -/
+def Eng.new {K : Type} (r : C09.Eng) (c : Config) : Eng K := ⟨r, c, []⟩
+
+/-- the engine of the fresh-engine comparison: built on the rule set as it is now, its index as fresh as the last
+`rebuild_index` (or the construction) made it, the configuration in force, nothing memoised -/
+def Eng.fresh {K : Type} (e : Eng K) : Eng K := Eng.new e.rules e.cfg
 
 /-- what a call hands back -/
 structure Out where
@@ -101,19 +127,19 @@ def outOf (nf : Nat) (o : QueryOut) : Out := ⟨o.provable, o.nsol, false, facts
 /-- `BackwardEngine::query` (= `query_with_rete_engine(.., None)`): key, lookup when memoising — a hit returns the stored
 verdict and leaves the caller's facts alone —, else the search with the configured `max_solutions`, and the verdict
 stored under the key when memoising -/
-def engineQuery (S : Search Q) (nf : Nat) (key : Q → Nat → Facts → K) (e : Eng K) (q : Q) (ord : Ord) (f : Facts) :
+def engineQuery (S : Search Q) (nf : Nat) (key : Nat → Q → Nat → Facts → K) (e : Eng K) (q : Q) (ord : Ord) (f : Facts) :
     Out × Eng K :=
-  let k := key q e.cfg.maxSol f
+  let k := key e.rules.kb.version q e.cfg.maxSol f
   match (if e.cfg.memo then lookup e.cache k else none) with
   | some b => (⟨b, 0, true, f⟩, e)
   | none =>
-    let o := S e.cfg e.cfg.maxSol q ord f
+    let o := S e.rules e.cfg e.cfg.maxSol q ord f
     (outOf nf o, if e.cfg.memo then { e with cache := (k, o.provable) :: e.cache } else e)
 
 /-- `BackwardEngine::query_aggregate` with a well-formed query text: `max_solutions := usize::MAX`,
 `enable_memoization := false`, the inner `query` (so: neither a lookup nor a store), both settings put back -/
 def engineAggregate (S : Search Q) (nf : Nat) (e : Eng K) (q : Q) (ord : Ord) (f : Facts) : Out × Eng K :=
-  (outOf nf (S e.cfg usizeMax q ord f), e)
+  (outOf nf (S e.rules e.cfg usizeMax q ord f), e)
 
 /-- one step of a history on one engine and the caller's facts -/
 inductive Step (Q : Type) where
@@ -128,13 +154,19 @@ inductive Step (Q : Type) where
   /-- `query_aggregate` with a text that is rejected (by `parse_aggregate_query`, or by the parser of the inner
   query after the settings were switched): `Err`, every setting is put back (fix 7aeb869), no search ran -/
   | badAggregate
+  /-- an edit through `engine.knowledge_base()`: `add_rule` / `remove_rule` / `set_rule_enabled` / `clear`
+  (`C09.kbStep`: the version moves iff something changes); index and memo cache are NOT touched -/
+  | kb (op : C09.KbOp)
+  /-- `rebuild_index`: the index is built from the live rules, the memo cache emptied (fix 092f94f) -/
+  | rebuild
 
 /-- state of a history: the engine and the caller's facts -/
 abbrev HState (K : Type) := Eng K × Facts
 
-def engineStep (S : Search Q) (nf : Nat) (key : Q → Nat → Facts → K) : HState K → Step Q → HState K × Option Out
+def engineStep (S : Search Q) (nm : Naming) (nf : Nat) (key : Nat → Q → Nat → Facts → K) :
+    HState K → Step Q → HState K × Option Out
   | (e, _), .setFacts f' => ((e, f'), none)
-  | (_, f), .setConfig c => ((Eng.new c, f), none)
+  | (e, f), .setConfig c => ((Eng.new e.rules c, f), none)
   | (e, f), .query q ord =>
     let r := engineQuery S nf key e q ord f
     ((r.2, r.1.after), some r.1)
@@ -142,52 +174,68 @@ def engineStep (S : Search Q) (nf : Nat) (key : Q → Nat → Facts → K) : HSt
     let r := engineAggregate S nf e q ord f
     ((r.2, r.1.after), some r.1)
   | s, .badAggregate => (s, none)
+  | (e, f), .kb op => (({ e with rules := C09.engStep nm e.rules (.kb op) }, f), none)
+  | (e, f), .rebuild => ((Eng.new (C09.engStep nm e.rules .rebuild) e.cfg, f), none)
+
+/-- the state a history leaves -/
+def stateAfter (S : Search Q) (nm : Naming) (nf : Nat) (key : Nat → Q → Nat → Facts → K) : HState K → List (Step Q) → HState K
+  | s, [] => s
+  | s, st :: rest => stateAfter S nm nf key (engineStep S nm nf key s st).1 rest
 
 /-- what the calls of a history hand back, in order -/
-def runFrom (S : Search Q) (nf : Nat) (key : Q → Nat → Facts → K) : HState K → List (Step Q) → List (Option Out)
+def runFrom (S : Search Q) (nm : Naming) (nf : Nat) (key : Nat → Q → Nat → Facts → K) :
+    HState K → List (Step Q) → List (Option Out)
   | _, [] => []
   | s, st :: rest =>
-    let r := engineStep S nf key s st
-    r.2 :: runFrom S nf key r.1 rest
+    let r := engineStep S nm nf key s st
+    r.2 :: runFrom S nm nf key r.1 rest
 
-/-- **the comparison the harness makes**: before every step a FRESHLY BUILT engine (same rules, the configuration in
-force) performs the same step on a copy of the caller's facts; the history itself goes on with the long-lived engine -/
-def freshAlong (S : Search Q) (nf : Nat) (key : Q → Nat → Facts → K) : HState K → List (Step Q) → List (Option Out)
+/-- **the comparison the harness makes**: before every step a FRESHLY BUILT engine (`Eng.fresh`: the rule set as it is
+at that step, the index as fresh as the last `rebuild_index` made it, the configuration in force) performs the same step
+on a copy of the caller's facts; the history itself goes on with the long-lived engine -/
+def freshAlong (S : Search Q) (nm : Naming) (nf : Nat) (key : Nat → Q → Nat → Facts → K) :
+    HState K → List (Step Q) → List (Option Out)
   | _, [] => []
   | s, st :: rest =>
-    (engineStep S nf key (Eng.new s.1.cfg, s.2) st).2 :: freshAlong S nf key (engineStep S nf key s st).1 rest
+    (engineStep S nm nf key (s.1.fresh, s.2) st).2 :: freshAlong S nm nf key (engineStep S nm nf key s st).1 rest
 
 def verdictOf : Option Out → Option Bool := fun o => o.map (·.verdict)
 
-/-- cache invariant: every stored verdict is what the search answers for SOME query / facts rendered by its key, under
-the engine's present configuration and one of the admissible enumerations `P` -/
-def EngCacheOK (S : Search Q) (key : Q → Nat → Facts → K) (P : Ord → Prop) (e : Eng K) : Prop :=
-  ∀ k b, (k, b) ∈ e.cache → ∃ q f ord, P ord ∧ k = key q e.cfg.maxSol f ∧ b = (S e.cfg e.cfg.maxSol q ord f).provable
+/-- cache invariant: every stored verdict sits under a key rendered for SOME knowledge-base version `v` not above the present
+one, some query and facts; an entry rendered for the PRESENT version holds what the search answers for that query / facts on
+the present rule state, under the engine's present configuration and one of the admissible enumerations `P` (entries of
+earlier versions are dead: no key rendered from now on equals theirs) -/
+def EngCacheOK (S : Search Q) (key : Nat → Q → Nat → Facts → K) (P : Ord → Prop) (e : Eng K) : Prop :=
+  ∀ k b, (k, b) ∈ e.cache → ∃ v q f ord, P ord ∧ k = key v q e.cfg.maxSol f ∧ v ≤ e.rules.kb.version ∧
+    (v = e.rules.kb.version → b = (S e.rules e.cfg e.cfg.maxSol q ord f).provable)
 
-/-- the key determines the query and the facts (it need NOT determine `max_solutions`: see `engine_history_eq_fresh`) -/
-def KeyDet (key : Q → Nat → Facts → K) : Prop :=
-  ∀ q m f q' m' f', key q m f = key q' m' f' → q = q' ∧ f = f'
+/-- the key determines the knowledge-base version, the query and the facts (it need NOT determine `max_solutions`: see
+`engine_history_eq_fresh`) -/
+def KeyDet (key : Nat → Q → Nat → Facts → K) : Prop :=
+  ∀ v q m f v' q' m' f', key v q m f = key v' q' m' f' → v = v' ∧ q = q' ∧ f = f'
 
 /-- every `query` step of the history enumerates its candidates by an `ord` satisfying `P` -/
 def OrdsIn (P : Ord → Prop) (h : List (Step Q)) : Prop :=
   ∀ st ∈ h, ∀ q ord, st = .query q ord → P ord
 
 /-- what history independence says about one step in state `(e, f)`: a `query` hands back a verdict that a fresh engine
-with the configuration in force gives on these facts under an admissible enumeration — its own enumeration when it
-actually searched, and then the facts handed back are the fresh engine's too; a hit leaves the facts alone —; every
-other step does exactly what it does on a fresh engine -/
-def StepFresh (S : Search Q) (nf : Nat) (key : Q → Nat → Facts → K) (P : Ord → Prop) (s : HState K) : Step Q → Prop
+(`Eng.fresh`: present rules, index and configuration) gives on these facts under an admissible enumeration — its own
+enumeration when it actually searched, and then the facts handed back are the fresh engine's too; a hit leaves the facts
+alone —; every other step does exactly what it does on a fresh engine -/
+def StepFresh (S : Search Q) (nm : Naming) (nf : Nat) (key : Nat → Q → Nat → Facts → K) (P : Ord → Prop) (s : HState K) :
+    Step Q → Prop
   | .query q ord =>
     let out := (engineQuery S nf key s.1 q ord s.2).1
-    (∃ ord', P ord' ∧ out.verdict = (S s.1.cfg s.1.cfg.maxSol q ord' s.2).provable) ∧
-    (out.hit = false → out = (engineQuery S nf key (Eng.new s.1.cfg) q ord s.2).1) ∧
+    (∃ ord', P ord' ∧ out.verdict = (S s.1.rules s.1.cfg s.1.cfg.maxSol q ord' s.2).provable) ∧
+    (out.hit = false → out = (engineQuery S nf key s.1.fresh q ord s.2).1) ∧
     (out.hit = true → out.after = s.2)
-  | st => (engineStep S nf key s st).2 = (engineStep S nf key (Eng.new s.1.cfg, s.2) st).2
+  | st => (engineStep S nm nf key s st).2 = (engineStep S nm nf key (s.1.fresh, s.2) st).2
 
 /-- … about every step of a history -/
-def HistoryFresh (S : Search Q) (nf : Nat) (key : Q → Nat → Facts → K) (P : Ord → Prop) : HState K → List (Step Q) → Prop
+def HistoryFresh (S : Search Q) (nm : Naming) (nf : Nat) (key : Nat → Q → Nat → Facts → K) (P : Ord → Prop) :
+    HState K → List (Step Q) → Prop
   | _, [] => True
-  | s, st :: rest => StepFresh S nf key P s st ∧ HistoryFresh S nf key P (engineStep S nf key s st).1 rest
+  | s, st :: rest => StepFresh S nm nf key P s st ∧ HistoryFresh S nm nf key P (engineStep S nm nf key s st).1 rest
 
 /-- the facts-then-query histories of the generic cache model (`RreModel/C11/Model.lean`) as steps -/
 def pairSteps (ord : Ord) : List (Facts × Q) → List (Step Q)
@@ -198,6 +246,9 @@ end
 
 /-- the key of the tie, by components (that the code's TEXT determines them — the query text the atom, the `Debug`
 rendering the sorted facts — stays an assumption about `format!`) -/
-def keyCode : Atom → Nat → Facts → Atom × Nat × Facts := fun q m f => (q, m, f)
+def keyCode : Nat → GQ → Nat → Facts → Nat × GQ × Nat × Facts := fun v q m f => (v, q, m, f)
+
+/-- rules named by position, all enabled: what `build_engine` of the harness registers (`R<i>`) -/
+def namedRules (ks : List C09.KRule) : List C09.NRule := (List.range ks.length).zip ks |>.map fun p => ⟨p.1, p.2⟩
 
 end C11
